@@ -341,3 +341,10 @@ package sql
 //@ effect[C08:abort-removes-the-rows-of-the-upload] every sms.removePartRowsByObjectId(_, _, $id)
 //@     needs before sms.objectRepository.FindObjectByBucketNameAndKeyAndUploadId(_, _, $b, $k, $u) -> ($e, _)
 //@     where $e != nil && $id == *$e.Id && $b == bucketName && $k == key && $u == uploadId
+
+// C06. Paginated ListParts (ghost scenario on the real ListParts over in-memory repositories; bounded random search:
+// the function builds a slice of pointers in a loop, outside what the deductive contracts above express).
+//@ func verifListPartsPagination
+//@ mode nosafety
+//@ bounded 1500
+//@ ensures[C06:parts-listed-exactly-once-across-pages] result
